@@ -89,6 +89,7 @@ class Episode:
         self.next_id = 0
         self.log_rs = log_rung_sizes
         self.crashed = False
+        self.last_result: Dict[int, dict] = {}
         self.promotion = conf["type"] in ("promotion", "pasha", "cost_promotion", "rush_promotion")
 
     def running(self):
@@ -163,8 +164,11 @@ class Episode:
             d = self.sched.on_trial_result(self.trials[t], result)
         except Exception as exc:
             return self._crash("on_trial_result", exc)
+        self.last_result[t] = dict(result)
         self.lastr[t] = r
         e = {"a": "Report", "t": t, "r": r, "v": v, "c": tc[r], "d": d, "cap": current_cap(self.sched, conf)}
+        if conf["type"] == "pasha":
+            e["eps"] = round(float(self.sched.terminator._rung_systems[0].epsilon), 12)
         self.ev.append(e)
         try:
             if d == "STOP":
@@ -177,6 +181,18 @@ class Episode:
             return self._crash("on_trial_remove", exc)
         self._rs()
         return e
+
+    def complete(self, t: int):
+        """The training script ends on its own after its last report (e.g. converged early)."""
+        if self.crashed or self.state.get(t) != "running" or self.lastr.get(t, 0) < 1 or t not in self.last_result:
+            return None
+        try:
+            self.sched.on_trial_complete(self.trials[t], dict(self.last_result[t]))
+        except Exception as exc:
+            return self._crash("on_trial_complete", exc)
+        self.state[t] = "stopped"
+        self.ev.append({"a": "Complete", "t": t})
+        self._rs()
 
     def error(self, t: int):
         if self.crashed or self.state.get(t) != "running":
@@ -193,7 +209,7 @@ class Episode:
         c = self.conf
         tconf = {"levels": list(c["levels"]), "maxt": c["maxt"], "nbr": c["nbr"], "perbr": c["perbr"], "type": c["type"],
                  "min": c["min"], "mra": c["mra"], "ckpt": c["ckpt"], "nthr": c.get("nthr", 0), "vals": [0], "costs": [0],
-                 "faults": True, "cap0": c["cap0"], "sd": c.get("sd", "none"), "myopic": bool(c.get("myopic", False))}
+                 "faults": True, "cap0": c["cap0"], "sd": c.get("sd", "none"), "myopic": bool(c.get("myopic", False)), "completes": True}
         return {"id": tid, "conf": tconf, "ev": self.ev}
 
 
@@ -220,4 +236,6 @@ def run_schedule(conf: dict, schedule: List[dict], seed: int) -> Episode:
             ep.report(h["t"], h["v"], h.get("c", 0))
         elif h["a"] == "Error":
             ep.error(h["t"])
+        elif h["a"] == "Complete":
+            ep.complete(h["t"])
     return ep
